@@ -12,6 +12,7 @@ import (
 	"unicode/utf8"
 
 	"github.com/bytedance/sonic"
+	"github.com/bytedance/sonic/ast"
 	"github.com/bytedance/sonic/decoder"
 	"github.com/bytedance/sonic/encoder"
 
@@ -556,6 +557,55 @@ func c18Decode(c *Ctx, i int, r *gen.Rng) {
 	case "CopyString", "NoValidateJSONSkip":
 		if valid && !same() {
 			bad("changes the result for a valid document")
+		}
+		if valid && sw == "CopyString" && errR == nil {
+			// the stream entry point: several values through one Decoder, looked at only after the
+			// whole stream has been consumed (typed destinations and lazily parsed nodes)
+			dd := gen.DefaultDoc
+			stream := doc + "\n" + r.Doc(&dd) + " " + doc + "\n" + r.Doc(&dd)
+			run := func(api sonic.API, lazy bool) (out []string) {
+				defer func() {
+					if e := recover(); e != nil {
+						out = append(out, fmt.Sprint("PANIC ", e))
+					}
+				}()
+				dec := api.NewDecoder(strings.NewReader(stream))
+				var kept []interface{}
+				for k := 0; k < 4; k++ {
+					var d interface{}
+					if lazy {
+						d = new(ast.Node)
+					} else if k%2 == 0 {
+						d = newDst(cs).Interface()
+					} else {
+						d = new(interface{})
+					}
+					if err := dec.Decode(d); err != nil {
+						out = append(out, "ERR")
+						break
+					}
+					kept = append(kept, d)
+				}
+				for _, d := range kept {
+					if n, ok := d.(*ast.Node); ok {
+						raw, err := n.Raw()
+						out = append(out, raw+"|"+errStr(err))
+					} else {
+						out = append(out, negZero.Replace(gen.Dump(reflect.ValueOf(d).Elem())))
+					}
+				}
+				return
+			}
+			for _, lazy := range []bool{false, true} {
+				x, y := strings.Join(run(fr, lazy), " ; "), strings.Join(run(fs, lazy), " ; ")
+				if x != y {
+					dx, dy := diffAt(x, y)
+					d := detail()
+					d["stream"], d["stream_without"], d["stream_with"], d["lazy_destinations"] = q(stream), dx, dy, lazy
+					c.Violate(i, "Config.CopyString", "changes what a stream Decoder delivered (values read after the whole stream was consumed)", d)
+				}
+			}
+			c.Count("copystring_stream_relations", 1)
 		}
 		if !valid && sw == "CopyString" && !same() {
 			bad("changes the result")
